@@ -210,6 +210,12 @@ func (r *Reader) Read(p []byte) (int, error) {
 	if r.concReader.ready() {
 		n, err := r.concReader.Read(p)
 		r.err = err
+		if err == io.EOF {
+			// Reaching the end is not a sticky error: a later Seek can rewind
+			// (and Close should still return nil), just like the
+			// non-concurrent code path below.
+			r.err = nil
+		}
 		return n, err
 	}
 
